@@ -444,18 +444,36 @@ class G4(G):
         c = r.choice([0, 1, 2, 3])
         return [("PUSH", c)], str(c)
 
-    def base(self):
+    def base(self, cls=None):
+        """base slot; cls = 'm' (mapping-rooted) / 'a' (array-rooted): within one program a slot is the root of structures of
+        ONE of the two classes only, as in every Solidity layout (the storage models rely on it: an array of mappings and a
+        mapping of arrays rooted at the same slot are conflated by both layouts although their EVM locations differ)"""
         r = self.r
-        if r.random() < 0.25:
-            return r.choice(boundary_slots())
-        return r.choice([0, 1, 2, 3, 4])
+
+        def draw():
+            if r.random() < 0.25:
+                return r.choice(boundary_slots())
+            return r.choice([0, 1, 2, 3, 4])
+
+        p = draw()
+        if cls is None:
+            return p
+        roots = self.__dict__.setdefault("roots", {})
+        for _ in range(8):
+            if roots.get(p, cls) == cls:
+                break
+            p = draw()
+        else:
+            p = next(q for q in range(5, 64) if roots.get(q, cls) == cls)
+        roots[p] = cls
+        return p
 
     def loc(self, depth=2):
         r = self.r
         kind = r.choice(["scalar", "map", "map", "arr", "arr", "arrc", "map2", "struct", "maparr", "arrmap", "deep"] if depth > 0
                         else ["scalar", "map", "arr", "arrc"])
         self.features.add(kind)
-        p = self.base()
+        p = self.base({"map": "m", "map2": "m", "maparr": "m", "deep": "m", "arr": "a", "arrc": "a", "arrmap": "a"}.get(kind))
         if kind == "scalar":
             return [("PUSH", p)], f"s{p}"
         if kind == "map":
@@ -511,6 +529,7 @@ class G4(G):
     def f4_storage(self, transient=False):
         r = self.r
         self.preimages = []
+        self.roots = {}
         ST, LD = ("TSTORE", "TLOAD") if transient else ("SSTORE", "SLOAD")
         nlocs = r.randint(2, 4)
         locs = [self.loc() for _ in range(nlocs)]
